@@ -152,12 +152,24 @@ ROUND7 = {
  "C19": " Late-fault cases (two announce tasks alive, one more failure after the first good reply) and a probe after every recovery.",
  "C20": " A timed scenario with every message kind as the only sign of life.",
 }
+ROUND8 = {
+ "C03": " File and directory names with runs of dots inside a component.",
+ "C08": " Full-queue variants: the manager is busy and its 64-slot command queue is full when the connection ends / the handshake arrives.",
+ "C10": " Choking peer: choke/unchoke at any point of a piece, answers to the requests outstanding at the choke arriving behind it; no request while choked, no completion by late blocks.",
+ "C11": " Real-socket lag runs: a leecher stops reading (its task sits in a socket write) while 20 / 44 more pieces are completed, reads again and unchokes: every announcement is delivered or the connection is over.",
+ "C12": " Full-queue scenario: the peer's Choke / disconnect arrives while the manager is busy and its command queue is full.",
+ "C13": " Departure histories: three peers with overlapping sets, a disconnect changes which piece is rarest between two picks.",
+ "C14": " Interest changes within one segment (Interested+NotInterested in one read); the manager's interest record must equal what the peer last declared; leeching variant.",
+ "C17": " create_file through a symbolic link.",
+ "C18": " Announce URLs with non-ASCII characters in path and query.",
+ "C19": " Busy-manager cases: failure reports and the good reply pile up in the tracker queue and are worked off in one go.",
+}
 
 def main():
     checks = []
     for pid in sorted(CHECKS):
         level, technique, engine, text, note, ref = CHECKS[pid]
-        text = text + ROUND3.get(pid, "") + ROUND4.get(pid, "") + ROUND5.get(pid, "") + ROUND5B.get(pid, "") + ROUND6.get(pid, "") + ROUND7.get(pid, "")
+        text = text + ROUND3.get(pid, "") + ROUND4.get(pid, "") + ROUND5.get(pid, "") + ROUND5B.get(pid, "") + ROUND6.get(pid, "") + ROUND7.get(pid, "") + ROUND8.get(pid, "")
         checks.append({
             "property_id": pid,
             "quick_cmd": "./check %s --tier quick" % pid,
